@@ -288,24 +288,24 @@ def run(tier, seed):
     total = 0
     for params in configs:
         hs, r = gen_histories(params)
-        if not full and len(hs) > 400:
-            hs = rng.sample(hs, 400)
+        if not full and len(hs) > 150:
+            hs = rng.sample(hs, 150)
         total += len(hs)
         for h in hs:
             _one(chk, params, h)
     for params in sims:
-        hs, r = gen_histories(dict(params, MaxSteps=30), sim='num=%d' % (1500 if full else 150), seed=seed + 7)
+        hs, r = gen_histories(dict(params, MaxSteps=30), sim='num=%d' % (1500 if full else 80), seed=seed + 7)
         total += len(hs)
         for h in hs:
             _one(chk, params, h)
-    if total < 500:
+    if total < 300:
         raise tlc.MachineryError('only %d histories generated' % total)
     # generic: sort-backed operators and the spill file
     from harness import c01
     s2, s3 = c01.gen_schedules(seed, False)
     with common.private_tmp() as tmp:
         for name, mk in generic_views(tmp):
-            scheds = rng.sample(s2 + s3, 120 if not full else 600)
+            scheds = rng.sample(s2 + s3, 50 if not full else 600)
             for sched in scheds:
                 dv = rng.randrange(0, len(sched) + 1)
                 msg = replay_generic(name, mk, sched, dv, tmp)
